@@ -32,6 +32,7 @@ from rv import util
 from rv.model import bits as M
 from rv.util import B, CLASSES, call, exc_matches
 
+AMBIENT = ['bytealigned', 'mxfp_overflow']      # options this property does not depend on: a quarter of the cases run with them switched
 PROP = 'C16'
 SHARDS = {'quick': 4, 'thorough': 16}
 RULE = ("random cases: receiver class x content kind (random/sparse/periodic/constant/single bit; lengths from "
